@@ -1,5 +1,5 @@
 """C13: AVX2 dot / sparse / dense 12-wide matrix kernels equal the product mod p."""
-from .. import matcheck
+from .. import matcheck, kcheck
 
 LEVEL = 'proof'
 PAT = r'^Goldilocks::(spmv_avx_4x12|mmult_avx|dot_avx)(_4x12)?(_a|_8)?\('
@@ -12,4 +12,7 @@ def run(rep, tier, seed):
                      'precondition (typestate) holds at its call site; 8-bit variants under the documented coefficient < 2^8 precondition')
     for cfg in ('avx2', 'avx512'):
         matcheck.run_family(rep, cfg, PAT, 11, 'C13')
-    rep.trusted = ['clang 14 lowering', 'glv abstract interpreter', 'lane-kernel contracts incl. spmv_avx_4x12_8 (proved by C02 kernel mode)']
+    # spmv_avx_4x12_8 does raw adds on the high parts of its 72-bit products: decided on exact integers, every lane
+    n = kcheck.prove_dot8(rep, 'avx2', 4, seed=seed)
+    rep.floor('8-bit sparse kernel (kernel mode)', n, 1)
+    rep.trusted = ['clang 14 lowering', 'glv abstract interpreter', 'lane-kernel contracts (proved by C02 kernel mode)']
